@@ -1,7 +1,7 @@
 SPECIFICATION Spec
 CONSTANTS
  Variants <- MCVariants
- NBk = 3
+ NBk = 4
  Inits <- MCInits
  Runs = 1
  QueuePersists = FALSE
@@ -13,11 +13,14 @@ CONSTANTS
  DevBackupOverwrite = FALSE
  DevNoBackup = FALSE
  DevSeqOpenEarly = FALSE
+ DevLinkDirect = FALSE
+ DevBackupCount = FALSE
 INVARIANT NoEarlyEffect
 INVARIANT SuccessState
 INVARIANT OthersKept
 INVARIANT OnlyBackupCreated
 INVARIANT NoLoss
+INVARIANT BackupResolves
 INVARIANT TargetWhole
 INVARIANT TmpClean
 INVARIANT BoundOK
